@@ -14,6 +14,8 @@ type Scenario struct {
 	Observe  func() string           // canonical observation of the execution (for outcome counting)
 	Daemon   func(name string) bool  // threads that may legitimately stay parked
 	MaxSteps int
+	// BoundDelta is added to the tier's preemption bound for this scenario (e.g. -1 for a large one).
+	BoundDelta int
 }
 
 // Verdict describes a violated execution.
